@@ -343,15 +343,15 @@ Qed.
 Theorem eq_iff_canon a b : wf a = true -> wf b = true -> (dv_eqb a b = true <-> canon a = canon b).
 Proof. intros Wa Wb. apply eqb_iff_canon; assumption. Qed.
 
-Theorem eq_refl a : wf a = true -> dv_eqb a a = true.
+Theorem dv_eq_refl a : wf a = true -> dv_eqb a a = true.
 Proof. intros W. apply eq_iff_canon; auto. Qed.
 
-Theorem eq_sym a b : wf a = true -> wf b = true -> dv_eqb a b = dv_eqb b a.
+Theorem dv_eq_sym a b : wf a = true -> wf b = true -> dv_eqb a b = dv_eqb b a.
 Proof.
   intros Wa Wb. apply eq_true_iff_eq. rewrite !eq_iff_canon by assumption. split; congruence.
 Qed.
 
-Theorem eq_trans a b c : wf a = true -> wf b = true -> wf c = true ->
+Theorem dv_eq_trans a b c : wf a = true -> wf b = true -> wf c = true ->
   dv_eqb a b = true -> dv_eqb b c = true -> dv_eqb a c = true.
 Proof.
   intros Wa Wb Wc. rewrite !eq_iff_canon by assumption. congruence.
